@@ -22,6 +22,10 @@
 (*   pos:# number of positional parameters, pos:1 pos:2 their values       *)
 (*   trap:C "ignore" | "cmd:<text>"     disp:S "ignore" | "catch"          *)
 (*   pend:S "1" the signal was caught, its trap action has not run yet     *)
+(*   kpend:S "1" the signal is in the kernel's pending set of the process   *)
+(*          (sent while blocked, not yet noticed by the shell)              *)
+(*   xctx:cond "1" the process executes inside a context in which errexit   *)
+(*          is ignored (condition of if/while/until, `!`, non-last and-or)  *)
 (*   cwd, umask                                                            *)
 (*   fd:N  identity of the open file description, fdx:N "1" close-on-exec  *)
 (* E (shell execution environment) and K[p] (per-process kernel state) of  *)
@@ -42,7 +46,9 @@ CONSTANTS Alphabet,   \* set of mutator command texts used by the generator
           MinPre,     \* the fork may happen only after at least this many prelude mutators
           MinTotal,   \* a scenario may end early only with at least this many mutators
                       \* (0 for exhaustive enumeration; > 0 to make random walks long)
-          Leaky       \* TRUE: adds a wrong action sharing state by reference (negative test)
+          Leaky,      \* TRUE: adds a wrong action sharing state by reference (negative test)
+          ForkBug     \* "none"; negative tests: "pending" (fork copies the pending signals),
+                      \* "nostack" (the child forgets the execution context it was created in)
 
 -----------------------------------------------------------------------------
 (* keys *)
@@ -58,8 +64,8 @@ EKeys == {"val:a", "exp:a", "ro:a", "val:b", "exp:b", "ro:b", "val:PWD", "val:OL
           "opt:verbose", "opt:xtrace", "opt:hashondefinition", "opt:ignoreeof",
           "opt:interactive", "opt:cmdline", "opt:stdin", "trap:TSTP", "trap:TTIN", "trap:TTOU",
           "trap:INT", "trap:QUIT", "trap:TERM", "trap:USR1", "trap:USR2", "trap:CHLD", "trap:EXIT",
-          "pend:USR1"}
-KKeys == {"cwd", "umask", "disp:INT", "disp:QUIT", "disp:TERM", "disp:USR1", "disp:USR2",
+          "pend:USR1", "xctx:cond"}
+KKeys == {"cwd", "umask", "disp:INT", "disp:QUIT", "disp:TERM", "disp:USR1", "disp:USR2", "kpend:USR1",
           "fd:0", "fd:1", "fd:2", "fd:3", "fd:4", "fdx:3", "fdx:4"}
 MK    == EKeys \cup KKeys
 
@@ -175,6 +181,10 @@ Sem(c) ==
     [] c = "trap 'probe c' CHLD" -> [op |-> "trap",    c |-> "CHLD", a |-> "cmd:probe c"]
     [] c = "trap - CHLD"         -> [op |-> "trap",    c |-> "CHLD", a |-> "-"]
     [] c = "status 0 & until wait; do :; done"     -> [op |-> "gchild"]   \* a child of this process exits: SIGCHLD
+    \* a command that fails: whether the process goes on depends on errexit and on
+    \* the execution context (XCU 2.8.1 / set -e: ignored in the compound list after
+    \* if/while/until, in a pipeline beginning with !, in a non-last and-or command)
+    [] c = "status 1"            -> [op |-> "fail"]
     [] c = "exec 3>>/tmp/f3"     -> [op |-> "open",    fd |-> "3"]
     [] c = "exec 4</tmp/in"      -> [op |-> "open",    fd |-> "4"]
     [] c = "exec 3>&-"           -> [op |-> "close",   fd |-> "3"]
@@ -191,6 +201,7 @@ AllCmds ==
    "trap 'probe t' INT", "trap '' INT", "trap - INT",
    "trap 'probe u' TERM", "trap '' TERM", "trap - TERM",
    "trap 'probe e' EXIT", "trap - EXIT", "trap 'probe c' CHLD", "trap - CHLD", "status 0 & until wait; do :; done",
+   "status 1",
    "set -a", "set +a", "set -e", "set +e", "set -m", "set +m", "set -b", "set +b",
    "set -o pipefail", "set +o pipefail", "set -u", "set +u", "set -v", "set +v", "set -x", "set +x",
    "set -h", "set +h", "set -o ignoreeof", "set +o ignoreeof",
@@ -210,12 +221,22 @@ OptOnCmds ==
   {"set -a", "set -e", "set -m", "set -b", "set -o pipefail", "set -u", "set -v", "set -x", "set -h",
    "set -o ignoreeof", "set -C", "set -o noglob"}
 CorePreCmds == CoreCmds \cup OptOnCmds
+(* the alphabet of the catalogues about what the fork does with the parent's *)
+(* pending signals and execution context                                    *)
+CtxCmds    == {"a=1", "status 1", "set -e", "set +e", "status 0 & until wait; do :; done"}
+CtxPreCmds == {"set -e", "set -m", "trap 'probe c' CHLD"}
+CtxCmds1    == {"a=1", "status 1", "set -e"}
+CtxPreCmds1 == {"set -e", "set -m"}
 
 AllKinds == {"Paren", "CmdSubst", "Pipe", "Async"}
+(* two command substitutions in one word: the second fork happens after the *)
+(* parent has waited for the first subshell, within the same command        *)
+CtxKinds == AllKinds \cup {"CmdSubst2", "NotPipe"}
 (* pipelines of 3 and 4 commands and negated ones (each command a subshell) *)
 WideKinds == {"Pipe3", "Pipe4", "NotPipe", "NotPipe3"}
 EndKinds  == AllKinds \cup {"Pipe3"}
 EveryKind == AllKinds \cup WideKinds
+SimKinds  == EveryKind \cup {"CmdSubst2"}
 ScriptMode == {"script"}
 BothModes  == {"script", "interactive"}
 (* how a subshell ends (after its last snapshot): falling off the end,      *)
@@ -227,10 +248,19 @@ AllFins == {"normal", "exit 3", "selfkill INT", "selfkill TERM", "selfkill KILL"
 MainCtx  == {"main"}
 TrapCtx  == {"trap"}
 BothCtxs == {"main", "trap"}
+(* the construct is (part of) the condition of if / while / until, of a     *)
+(* pipeline beginning with `!`, the left-hand side of `&&`                  *)
+CondCtxs == {"if", "while", "until", "not", "and"}
+(* a sibling (asynchronous list started before) sends SIGUSR1, for which    *)
+(* the parent has a command trap, to the parent at any moment               *)
+SigCtx   == {"sig"}
+NewCtxs  == CondCtxs \cup SigCtx
+EveryCtx == BothCtxs \cup NewCtxs
 
 Roles(kind) ==
   CASE kind = "Paren"    -> <<"paren">>
     [] kind = "CmdSubst" -> <<"cmdsubst">>
+    [] kind = "CmdSubst2" -> <<"cmdsubst", "cmdsubst">>
     [] kind \in {"Pipe", "NotPipe"}   -> <<"pipe_first", "pipe_last">>
     [] kind \in {"Pipe3", "NotPipe3"} -> <<"pipe_first", "pipe_mid", "pipe_last">>
     [] kind = "Pipe4"    -> <<"pipe_first", "pipe_mid", "pipe_mid", "pipe_last">>
@@ -256,6 +286,8 @@ En(c, S, role) ==
                            \* the interactive shell's own handling of these is not modelled
                            /\ ~(role = "parent" /\ S["opt:interactive"] = "on" /\ s.c \in {"INT", "QUIT", "TERM"})
     [] s.op = "opt"     -> ~(role = "parent" /\ S["opt:interactive"] = "on" /\ s.n = "monitor")
+    \* with errexit on and not ignored the process exits here: not a step of a scenario
+    [] s.op = "fail"    -> ~(S["opt:errexit"] = "on" /\ S["xctx:cond"] # "1")
     [] OTHER            -> TRUE
 
 Upd(S, u) == [k \in DOMAIN S |-> IF k \in DOMAIN u THEN u[k] ELSE S[k]]
@@ -290,6 +322,7 @@ Ap(c, S, fresh) ==
     [] s.op = "cd"       -> Upd(S, "cwd" :> s.d @@ "val:OLDPWD" :> S["val:PWD"] @@ "val:PWD" :> ("S" \o s.d))
     [] s.op = "umask"    -> Upd(S, "umask" :> s.m)
     [] s.op = "gchild"   -> S
+    [] s.op = "fail"     -> S
     [] s.op = "trap"     -> IF s.c \in {"EXIT", "CHLD"} THEN Upd(S, ("trap:" \o s.c) :> s.a)
                             ELSE Upd(S, ("trap:" \o s.c) :> s.a @@ ("disp:" \o s.c) :> DispOf(s.a))
     [] s.op = "open"     -> Upd(S, ("fd:" \o s.fd) :> fresh @@ ("fdx:" \o s.fd) :> "-")
@@ -344,8 +377,14 @@ Plumb(role) ==
     [] role = "async"      -> ("fd:0" :> "n:devnull")
 
 (* fork(): "the set of signals pending for the child process shall be      *)
-(* initialized to the empty set" -- a signal the parent has caught but not  *)
-(* yet acted upon is the parent's business.                                 *)
+(* initialized to the empty set" -- neither a signal still in the kernel's  *)
+(* pending set of the parent (kpend) nor one the parent's handler has       *)
+(* caught but whose trap action has not run yet (pend) reaches the child:   *)
+(* both are the parent's business; the child neither runs the parent's     *)
+(* trap action nor is it killed by them.  Everything else is a COPY, which  *)
+(* includes the execution context (xctx:cond): XCU 2.13 "a duplicate of the *)
+(* shell environment"; 2.8.1/set -e: errexit is ignored while executing    *)
+(* the compound list after if/while/until etc., subshells included.         *)
 EffPlumb(S, role) == IF role = "async" /\ ~NoJobControl(S) THEN <<>> ELSE Plumb(role)
 ForkImage(S, role) ==
   Upd(S, "trap:INT"  :> TrapImg(S, role, "INT")  @@ "trap:QUIT" :> TrapImg(S, role, "QUIT") @@
@@ -357,8 +396,21 @@ ForkImage(S, role) ==
          "disp:INT"  :> DispImg(S, role, "INT")  @@ "disp:QUIT" :> DispImg(S, role, "QUIT") @@
          "disp:TERM" :> DispImg(S, role, "TERM") @@
          "disp:USR1" :> DispImg(S, role, "USR1") @@ "disp:USR2" :> DispImg(S, role, "USR2") @@
-         "pend:USR1" :> "-" @@
+         "pend:USR1" :> "-" @@ "kpend:USR1" :> "-" @@
          EffPlumb(S, role))
+
+(* The elements of a pipeline beginning with `!` are created inside that    *)
+(* pipeline: their context is errexit-exempt whatever the parent's was.     *)
+NegCtx(S, k) == IF k \in {"NotPipe", "NotPipe3"} THEN Upd(S, "xctx:cond" :> "1") ELSE S
+ForkImageK(S, k, role) == ForkImage(NegCtx(S, k), role)
+
+(* What the Fork action of the scenario machine does: the law, unless a     *)
+(* negative configuration plants a wrong fork.                              *)
+DoFork(S, k, role) ==
+  LET I == ForkImageK(S, k, role) IN
+  CASE ForkBug = "pending" -> Upd(I, "kpend:USR1" :> S["kpend:USR1"])
+    [] ForkBug = "nostack" -> Upd(I, "xctx:cond" :> "-")
+    [] OTHER               -> I
 
 (* Where the construct is executed.  "trap": from inside the action of a    *)
 (* SIGUSR2 trap, after SIGUSR1 -- which has a command trap, too -- has been *)
@@ -366,11 +418,19 @@ ForkImage(S, role) ==
 (* The harness renders this as                                              *)
 (*    trap 'probe s' USR1; trap '. /tmp/act' USR2; kill -s USR2 $$          *)
 (* with /tmp/act = kill -s USR1 $$; <before> <construct> <after>.           *)
+(* "if", "while", "until", "not", "and": the part from "before" to "after"  *)
+(* is the condition of an if / while / until command, the body of `! { }`,  *)
+(* the left-hand side of `{ } && :`.                                        *)
+(* "sig":  trap 'probe s' USR1; { pause S; kill -s USR1 $$; } &  precede    *)
+(* "before"; the construct is the only clause of a `case $(pause W) in` :   *)
+(* the parent waits inside the command that forks, so the signal can reach  *)
+(* it after its last look at the caught signals and before the fork.        *)
 EnterCtx(S, x) ==
-  IF x = "trap"
-  THEN Upd(S, "trap:USR1" :> "cmd:probe s" @@ "disp:USR1" :> "catch" @@
-              "trap:USR2" :> "cmd:. /tmp/act" @@ "disp:USR2" :> "catch" @@ "pend:USR1" :> "1")
-  ELSE S
+  CASE x = "trap" -> Upd(S, "trap:USR1" :> "cmd:probe s" @@ "disp:USR1" :> "catch" @@
+                            "trap:USR2" :> "cmd:. /tmp/act" @@ "disp:USR2" :> "catch" @@ "pend:USR1" :> "1")
+    [] x = "sig"  -> Upd(S, "trap:USR1" :> "cmd:probe s" @@ "disp:USR1" :> "catch")
+    [] x \in CondCtxs -> Upd(S, "xctx:cond" :> "1")
+    [] OTHER      -> S
 
 (* Trap actions a process runs because of mutator c (executed in map S,     *)
 (* S2 afterwards): a pending caught signal's action runs at the next        *)
@@ -390,8 +450,10 @@ VARIABLES phase, kind, ctx, mode, fin, pre, chs, post,   \* the scenario (what t
           P,                             \* the parent's map
           P0,                            \* ... at the fork ("before")
           C, C0,                         \* the children's maps, now and on entry
-          ran                            \* trap actions each child has run
-vars == <<phase, kind, ctx, mode, fin, pre, chs, post, P, P0, C, C0, ran>>
+          ran,                           \* trap actions each child has run
+          sigst,                         \* the sibling's signal: "-" none, "armed", "sent"
+          pran                           \* how often the parent has run its SIGUSR1 trap action
+vars == <<phase, kind, ctx, mode, fin, pre, chs, post, P, P0, C, C0, ran, sigst, pran>>
 
 RECURSIVE SumLen(_, _)
 SumLen(ss, i) == IF i > Len(ss) THEN 0 ELSE Len(ss[i]) + SumLen(ss, i + 1)
@@ -400,6 +462,7 @@ Total == Len(pre) + SumLen(chs, 1) + Len(post)
 Init == /\ phase = "pre" /\ kind = "-" /\ ctx = "-" /\ pre = <<>> /\ chs = <<>> /\ post = <<>>
         /\ mode \in Modes /\ fin = "-"
         /\ P = InitMapFor(mode) /\ P0 = P /\ C = <<>> /\ C0 = <<>> /\ ran = <<>>
+        /\ sigst = "-" /\ pran = 0
 
 PreStep ==
   /\ phase = "pre" /\ Len(pre) < MaxPre /\ Total < MaxTotal
@@ -407,18 +470,53 @@ PreStep ==
        /\ En(c, P, "parent")
        /\ P' = Ap(c, P, Fresh("pre", Len(pre) + 1))
        /\ pre' = Append(pre, c)
-  /\ UNCHANGED <<phase, kind, ctx, mode, fin, chs, post, P0, C, C0, ran>>
+  /\ UNCHANGED <<phase, kind, ctx, mode, fin, chs, post, P0, C, C0, ran, sigst, pran>>
 
 Fork ==
   /\ phase = "pre" /\ (Len(pre) >= MinPre \/ Len(pre) = MaxPre)
-  /\ \E k \in Kinds, x \in Ctxs :
+  /\ \E k \in Kinds, x \in Ctxs \ SigCtx :
        /\ kind' = k /\ ctx' = x
        /\ P' = EnterCtx(P, x)
-       /\ C' = [j \in 1..Len(Roles(k)) |-> ForkImage(P', Roles(k)[j])]
+       /\ C' = [j \in 1..Len(Roles(k)) |-> DoFork(P', k, Roles(k)[j])]
        /\ chs' = [j \in 1..Len(Roles(k)) |-> <<>>]
        /\ ran' = [j \in 1..Len(Roles(k)) |-> {}]
   /\ C0' = C' /\ P0' = P' /\ phase' = "run"
-  /\ UNCHANGED <<pre, post, mode, fin>>
+  /\ UNCHANGED <<pre, post, mode, fin, sigst, pran>>
+
+(* The "sig" context: the sibling is started and "before" taken (Arm); the  *)
+(* signal is sent (Signal: it joins the kernel's pending set, the shell     *)
+(* keeps trapped signals blocked), noticed by the shell (Catch) and its     *)
+(* trap action run (RunTrap) at any moment from then on -- before the fork  *)
+(* (ForkSig), between the steps of the subshells, after them.               *)
+Arm ==
+  /\ phase = "pre" /\ (Len(pre) >= MinPre \/ Len(pre) = MaxPre)
+  /\ "sig" \in Ctxs /\ mode = "script"
+  /\ \E k \in Kinds : kind' = k
+  /\ ctx' = "sig" /\ P' = EnterCtx(P, "sig") /\ P0' = P' /\ phase' = "win" /\ sigst' = "armed"
+  /\ UNCHANGED <<pre, post, mode, fin, chs, C, C0, ran, pran>>
+
+ForkSig ==
+  /\ phase = "win" /\ phase' = "run"
+  /\ C' = [j \in 1..Len(Roles(kind)) |-> DoFork(P, kind, Roles(kind)[j])]
+  /\ chs' = [j \in 1..Len(Roles(kind)) |-> <<>>]
+  /\ ran' = [j \in 1..Len(Roles(kind)) |-> {}]
+  /\ C0' = C'
+  /\ UNCHANGED <<kind, ctx, mode, fin, pre, post, P, P0, sigst, pran>>
+
+Signal ==
+  /\ phase \in {"win", "run"} /\ sigst = "armed" /\ sigst' = "sent"
+  /\ P' = Upd(P, "kpend:USR1" :> "1")
+  /\ UNCHANGED <<phase, kind, ctx, mode, fin, pre, chs, post, P0, C, C0, ran, pran>>
+
+Catch ==
+  /\ phase \in {"win", "run"} /\ ctx = "sig" /\ P["kpend:USR1"] = "1"
+  /\ P' = Upd(P, "kpend:USR1" :> "-" @@ "pend:USR1" :> "1")
+  /\ UNCHANGED <<phase, kind, ctx, mode, fin, pre, chs, post, P0, C, C0, ran, sigst, pran>>
+
+RunTrap ==
+  /\ phase \in {"win", "run"} /\ ctx = "sig" /\ P["pend:USR1"] = "1"
+  /\ P' = Upd(P, "pend:USR1" :> "-") /\ pran' = pran + 1
+  /\ UNCHANGED <<phase, kind, ctx, mode, fin, pre, chs, post, P0, C, C0, ran, sigst>>
 
 ChildStepOf(j) ==
   /\ phase = "run" /\ Len(chs[j]) < MaxChild /\ Total < MaxTotal
@@ -427,7 +525,7 @@ ChildStepOf(j) ==
        /\ C' = [C EXCEPT ![j] = Ap(c, C[j], Fresh("c" \o ToString(j), Len(chs[j]) + 1))]
        /\ chs' = [chs EXCEPT ![j] = Append(@, c)]
        /\ ran' = [ran EXCEPT ![j] = @ \cup Triggered(c, C[j], C'[j])]
-  /\ UNCHANGED <<phase, kind, ctx, mode, fin, pre, post, P, P0, C0>>
+  /\ UNCHANGED <<phase, kind, ctx, mode, fin, pre, post, P, P0, C0, sigst, pran>>
 
 (* the parent goes on while an asynchronous list runs *)
 ParentStep ==
@@ -436,19 +534,25 @@ ParentStep ==
        /\ En(c, P, "parent")
        /\ P' = Ap(c, P, Fresh("post", Len(post) + 1))
        /\ post' = Append(post, c)
-  /\ UNCHANGED <<phase, kind, ctx, mode, fin, pre, chs, P0, C, C0, ran>>
+  /\ UNCHANGED <<phase, kind, ctx, mode, fin, pre, chs, P0, C, C0, ran, sigst, pran>>
 
 Saturated == /\ \A j \in 1..Len(chs) : Len(chs[j]) = MaxChild
              /\ kind = "Async" => Len(post) = MaxPost
 Finish == /\ phase = "run" /\ phase' = "done"
           /\ fin' \in Fins      \* however the subshells end, nothing else changes
           \* (with errexit on, the PARENT rightly exits on a failing subshell: left out)
-          /\ P["opt:errexit"] = "on" => fin' = "normal"
+          \* (... unless the parent ignores errexit where it executes the construct)
+          /\ (P["opt:errexit"] = "on" /\ P["xctx:cond"] # "1") =>
+                /\ fin' = "normal"
+                \* ( ...; status 1 ) returns 1 as well
+                /\ \A j \in 1..Len(chs) : IF chs[j] = <<>> THEN TRUE ELSE Sem(chs[j][Len(chs[j])]).op # "fail"
+          \* the script waits for the sibling, whose signal the parent has handled by then
+          /\ ctx = "sig" => (sigst = "sent" /\ P["kpend:USR1"] = "-" /\ P["pend:USR1"] = "-")
           \* (an interrupt in an interactive shell abandons the command line being executed,
           \*  here the trap action that contains the construct and the "after" probe: left out)
           /\ (ctx = "trap" /\ mode = "interactive") => fin' # "selfkill INT"
           /\ Total >= MinTotal \/ Total = MaxTotal \/ Saturated
-          /\ UNCHANGED <<kind, ctx, mode, pre, chs, post, P, P0, C, C0, ran>>
+          /\ UNCHANGED <<kind, ctx, mode, pre, chs, post, P, P0, C, C0, ran, sigst, pran>>
 
 (* NEGATIVE TEST ONLY: the child's variables are the parent's (a shared     *)
 (* reference instead of a copy).                                            *)
@@ -458,12 +562,13 @@ LeakStepOf(j) ==
   /\ C' = [C EXCEPT ![j] = Ap("a=2", C[j], "-")]
   /\ P' = Ap("a=2", P, "-")
   /\ chs' = [chs EXCEPT ![j] = Append(@, "a=2")]
-  /\ UNCHANGED <<phase, kind, ctx, mode, fin, pre, post, P0, C0, ran>>
+  /\ UNCHANGED <<phase, kind, ctx, mode, fin, pre, post, P0, C0, ran, sigst, pran>>
 
 ChildStep == \E j \in 1..Len(chs) : ChildStepOf(j)
 LeakStep  == \E j \in 1..Len(chs) : LeakStepOf(j)
 
 Next == PreStep \/ Fork \/ ParentStep \/ Finish \/ ChildStep \/ LeakStep
+        \/ Arm \/ ForkSig \/ Signal \/ Catch \/ RunTrap
 
 Spec == Init /\ [][Next]_vars
 
@@ -477,11 +582,26 @@ Isolation ==
         /\ \A j \in 1..Len(chs) : chs'[j] = chs[j] => C'[j] = C[j]]_vars
 
 (* ... and the copy is a copy: later steps of the parent do not reach it. *)
-CopyNotReference == [][(phase = "run" /\ post' # post) => C' = C]_vars
+(* nor does a signal that reaches the parent *)
+CopyNotReference == [][(phase = "run" /\ P' # P) => C' = C]_vars
 
 EntryIsForkImage ==
   phase \in {"run", "done"} =>
-     \A j \in 1..Len(C0) : C0[j] = ForkImage(P0, Roles(kind)[j])
+     \A j \in 1..Len(C0) : C0[j] = ForkImageK(P0, kind, Roles(kind)[j])
+
+(* fork(): the child's set of pending signals is empty -- whatever signal   *)
+(* was pending for, or caught but not yet handled by, the parent            *)
+PendingCleared ==
+  phase \in {"run", "done"} =>
+     \A j \in 1..Len(C0) : C0[j]["kpend:USR1"] = "-" /\ C0[j]["pend:USR1"] = "-"
+
+(* ... and the parent's signal is the parent's: its trap action runs once   *)
+ParentTrapOnce == (phase = "done" /\ ctx = "sig") => pran = 1
+
+(* the subshell knows the execution context it was created in *)
+ContextDuplicated ==
+  phase \in {"run", "done"} =>
+     \A j \in 1..Len(C0) : C0[j]["xctx:cond"] = NegCtx(P0, kind)["xctx:cond"]
 
 TrapRule ==
   phase \in {"run", "done"} =>
